@@ -3,6 +3,6 @@ CONSTANTS
   MaxVariants = 1
   MaxFields = 2
   VMenu = {"none", "ren", "hint_tuple", "hint_struct", "hint_unit", "hint_tuple_ded"}
-  FMenu = {"none", "ren", "expr", "ghostd"}
+  FMenu = {"none", "ren", "expr", "renexpr", "swap", "swapexpr", "ghostd"}
 INVARIANTS Emit Symmetric
 CHECK_DEADLOCK FALSE
